@@ -455,6 +455,9 @@ func checkGraphOp(gc *graphCase, t []string, out, line string) *core.Failure {
 
 func check(c core.Case, out []string) *core.Failure {
 	hdr := core.Toks(c.Lines[0])
+	if len(hdr) >= 3 && hdr[2] == "graph" && out[0] == "panic" {
+		return fail("graph-build-panic", "%q: building the graph through AddNode/AddEdge/AddUndirectedEdge/Init panicked", c.Lines[0])
+	}
 	if len(hdr) < 3 || out[0] != "ok" {
 		return nil
 	}
@@ -525,6 +528,9 @@ func check(c core.Case, out []string) *core.Failure {
 			}
 			if out[i] == "panic" {
 				return fail("cliques-panic", "%q / %q panicked", c.Lines[0], c.Lines[i])
+			}
+			if gc.lenBad {
+				return fail("graph-len", "%q: Graph.Len() = %d after adding %d vertices (build mode %d)", c.Lines[0], gc.graph.Len(), gc.n, gc.mode)
 			}
 			if f := checkGraphOp(gc, t, out[i], c.Lines[0]+" / "+c.Lines[i]); f != nil {
 				return f
@@ -634,6 +640,45 @@ func classify(c core.Case, out []string) []string {
 				}
 			}
 		}
+	}
+	if hdr[2] == "graph" && len(hdr) > 3 && out[0] == "ok" {
+		if gc, ok := parseGraph(hdr[3:]); ok {
+			ls = append(ls, fmt.Sprintf("graph:build-mode-%d", gc.mode))
+			seen := map[string]bool{}
+			for _, e := range hdr[4:] {
+				k := e
+				if ab := strings.Split(e, "-"); len(ab) == 2 && ab[0] > ab[1] {
+					k = ab[1] + "-" + ab[0]
+				}
+				if seen[k] {
+					ls = append(ls, "graph:duplicate-edge")
+					break
+				}
+				seen[k] = true
+			}
+			iso := 0
+			a := gc.adjacency()
+			for i := range a {
+				deg := 0
+				for j := range a[i] {
+					if a[i][j] {
+						deg++
+					}
+				}
+				if deg == 0 {
+					iso++
+				}
+			}
+			if iso > 0 && len(gc.arcs) == 0 {
+				ls = append(ls, "graph:isolated-vertex")
+			}
+			if gc.n == 0 {
+				ls = append(ls, "graph:empty")
+			}
+		}
+	}
+	if hdr[2] == "map" && len(hdr) == 3 {
+		ls = append(ls, "map:empty")
 	}
 	if hdr[2] == "graph" && len(hdr) > 3 {
 		for _, e := range hdr[4:] {
